@@ -46,7 +46,15 @@ RULE = (
     "enumerated families also chooses a newer / older / equal mtime, and the 'mtime' family "
     "(loads, modify with each of 6 mtime kinds or by rename, delete / create, <= 2 names, "
     "length <= 4 quick / 5 thorough, plus load-change-[evict]-load-change-[evict]-load "
-    "skeletons over all change pairs) is enumerated completely at capacity 1 and 2.  Enumerated families (one representative per renaming of names / "
+    "skeletons over all change pairs) is enumerated completely at capacity 1 and 2 (also for one "
+    "CachingFileSystemLoader over two search paths, 'fs-multi').  Namespace values: the 'nsval' "
+    "family runs, on tenant-aware subclasses of the three caching loaders whose get_source "
+    "refines the name from the namespace (docs/loading_templates.md style; every typed value "
+    "is its own tenant), every ordered pair of loads over 4 names (x, a/x, b/x, a/b/x) x {no "
+    "namespace, each of None 0 1 '0' '1' '' False True 0.0 'a' 'a/b' supplied by keyword, by a "
+    "render context, through a render tag, through an include tag, or by keyword and context "
+    "with different values (keyword must win)} — all pairs sync, same-name pairs also async; "
+    "the reference keys entries by (typed namespace value, name).  Enumerated families (one representative per renaming of names / "
     "namespaces, histories end in a load, directly repeated modify/delete/fail dropped): "
     "quick = every history of length <= 3 with sync/async chosen per step + every history "
     "of length 4 whose loads are all sync or all async (file-system families: all sync; "
@@ -89,6 +97,12 @@ ASSUMPTIONS = [
     "a file created in an earlier ChoiceLoader member shadows the file the entry came from",
     "exhaustive file-system histories run liquid2's async path on a real event loop whose "
     "default executor runs inline; random histories use the real thread-pool executor",
+    "namespace identity = presence + the value itself (1, '1', True, 1.0 are different "
+    "namespaces; a keyword argument that is present wins over the render context whatever its "
+    "value, including None/0/''); two identities whose '<namespace>/<name>' strings coincide "
+    "are reported as namespace-key-collision:* (the engine's cache key is that string)",
+    "70 % of the random histories over namespace values use a vocabulary free of such "
+    "coincidences so that long histories are not all cut short by that finding",
     "thread stress checks invariants only at quiescent points; it cannot prove absence of races",
 ]
 
